@@ -70,6 +70,9 @@ VecApi == {
   E("Twist2.Prismatic", "class", << {2} >>),
   E("Plucker", "class", << {6} >>),          E("Plucker.PQ", "class", << {3}, {3} >>),
   E("Plucker.PointDir", "class", << {3}, {3} >>),
+  \* methods of a line taking a point, a plane (4 coefficients) or the 6 bounds of a box
+  E("Plucker.contains", "class", << {3} >>), E("Plucker.closest", "class", << {3} >>),
+  E("Plucker.intersect_plane", "class", << {4} >>), E("Plucker.intersect_volume", "class", << {6} >>),
   E("SpatialVelocity", "class", << {6} >>),  E("SpatialForce", "class", << {6} >>),
   E("SE3*", "class", << {3} >>),             E("SO3*", "class", << {3} >>),
   E("SE2*", "class", << {2} >>),             E("SO2*", "class", << {2} >>),
@@ -86,7 +89,8 @@ MatApi == {"t2r", "r2t", "tr2rt", "rt2tr", "trinv", "trinv2", "trlog(R)", "trlog
            "SE3([T,T])", "SO3([R,R])", "SE3*points", "SO3*points", "SE2*points", "UnitQuaternion*points"}
 
 \* entries documented ":SymPy: supported" (C16) and the symbolic pose expressions built over them
-SymApi == {"qpow(-3)", "qpow(-2)", "qpow(-1)", "qpow(0)", "qpow(3)",        \* integer powers of a symbolic quaternion
+SymApi == {"norm([x,0,0])", "norm((0,y,0))", "norm(array[0,0,2z])", "normsq([x,0,0])",       \* vectors with ONE symbolic component
+           "qpow(-3)", "qpow(-2)", "qpow(-1)", "qpow(0)", "qpow(3)",        \* integer powers of a symbolic quaternion
            "SE3(ndarray[x,y,z])", "SE3(ndarray column)", "SE3([x,y,z])",          \* vector call forms of the SE3 constructor
            \* (SE2 / SO2 carry no 'SymPy: supported' mark: not in the scope of C16)
            "simplify", "rotx", "roty", "rotz", "trotx", "troty", "trotz", "transl", "eul2r", "eul2tr", "delta2tr", "trinv", "trinv2",
@@ -101,7 +105,7 @@ SymModes == {"all-symbolic", "mixed", "mixed-number-first"}     \* which positio
 \* one-axis rotation has so many structural zeros that most entries of a formula are never exercised
 SymMatApi == {"trinv", "tr2delta", "tr2delta(T0,T1)", "tr2jac", "tr2jac(samebody)", "vex(R-I)", "vex(R-R')", "vexa(T-I)",
               "det", "det(4x4)", "SE3.inv", "SE3.Ad", "SE3.jacob", "SE3.t", "SO3.R", "SO3.inv", "SE3*SE3", "SE3*point",
-              "SO3*point", "simplify"}
+              "SO3*point", "simplify", "SO3.simplify"}
 SymMatArgs == {"one-axis", "two-axis", "euler", "number-times-symbol"}
 
 FormsOf(layer) == IF layer = "base" THEN {"list", "tuple", "array", "row", "column"}
@@ -127,7 +131,7 @@ OrderIn == {"rpy2r", "rpy2tr", "tr2rpy", "SO3.RPY", "SE3.RPY", "UnitQuaternion.R
 GoodOrders == {"zyx", "xyz", "yxz", "vehicle", "arm", "camera"}
 BadOrders  == {"zxy", "xzy", "XYZ", "rpy", ""}
 BadUnits   == {"degrees", "grad", "Deg", ""}
-ScalarForms == {"transl", "transl2", "rpy2r", "rpy2tr", "eul2r", "eul2tr", "SE2", "SE3"}
+ScalarForms == {"transl", "transl2", "rpy2r", "rpy2tr", "eul2r", "eul2tr", "SE2", "SE2(x,y)", "SE3"}
 
 \* ---- the machine: one call per behaviour -------------------------------------------------
 VARIABLES call, expect
@@ -182,9 +186,11 @@ SymMatCall(n, arg, mode) ==
   /\ call' = [op |-> "symmat", name |-> n, arg |-> arg, mode |-> mode]
   /\ expect' = "symbolic-equals-numeric"
 
-ScalarCall(n) ==
+\* st: the type of the separate scalars - Python float / int, or NumPy scalars (what a loop over an array yields)
+ScalarTypes == {"float", "int", "numpy.float64", "numpy.int64", "numpy.float32", "numpy.int32"}
+ScalarCall(n, st) ==
   /\ call.op = "none"
-  /\ call' = [op |-> "scalars", name |-> n]
+  /\ call' = [op |-> "scalars", name |-> n, st |-> st]
   /\ expect' = "same-as-packed"
 
 Next ==
@@ -194,7 +200,7 @@ Next ==
   \/ \E n \in UnitOut : \E cfg \in UnitCfgs : \E o \in {"zyx", "xyz", "yxz"} : UnitCall(n, "out", cfg, o)
   \/ \E n \in UnitIn : \E u \in BadUnits : BadUnitCall(n, u)
   \/ \E n \in OrderIn : \E o \in GoodOrders \cup BadOrders : OrderCall(n, o)
-  \/ \E n \in ScalarForms : ScalarCall(n)
+  \/ \E n \in ScalarForms : \E st \in ScalarTypes : ScalarCall(n, st)
   \/ \E n \in MatApi : \E k \in MatKinds : MatCall(n, k)
   \/ \E n \in SymApi \cup SymExprs : \E mode \in SymModes : SymCall(n, mode)
   \/ \E n \in SymMatApi : \E a \in SymMatArgs : \E mode \in SymModes : SymMatCall(n, a, mode)
